@@ -51,7 +51,7 @@ func (Driver) Batches(tier string) int {
 
 const (
 	quickCases    = 160_000
-	thoroughCases = 5_000_000
+	thoroughCases = 30_000_000
 )
 
 func (Driver) Run(c *core.Ctx) {
